@@ -653,3 +653,18 @@ impl<K: Hash + Eq, V, FH: BuildHasher, RH: BuildHasher> Cache<K, V>
         self.protected.is_empty() && self.probationary.is_empty()
     }
 }
+
+#[cfg(feature = "verif-hooks")]
+impl<K: Hash + Eq, V, FH: BuildHasher, RH: BuildHasher> SegmentedCache<K, V, FH, RH> {
+    /// Verification hook (feature `verif-hooks`): read-only views of (probationary, protected).
+    #[doc(hidden)]
+    #[allow(clippy::type_complexity)]
+    pub fn verif_parts(
+        &self,
+    ) -> (
+        &RawLRU<K, V, DefaultEvictCallback, RH>,
+        &RawLRU<K, V, DefaultEvictCallback, FH>,
+    ) {
+        (&self.probationary, &self.protected)
+    }
+}
